@@ -43,7 +43,14 @@ func c16Main(args []string) int {
 	depthF := fs.Int("depth", 0, "override the SPACE depth")
 	part := fs.String("part", "all", "space | sched | all")
 	only := fs.String("scenario", "", "SCHED: only scenarios with this prefix")
+	replayF := fs.String("replay", "", "violation artefact: re-run the check and report whether its key is still produced")
 	fs.Parse(args)
+	if *replayF != "" {
+		if err := common.ReplayByRerun(*replayF); err != nil {
+			fmt.Fprintln(os.Stderr, err)
+			return 2
+		}
+	}
 	thorough := common.Tier() == "thorough"
 	if fs.NArg() >= 2 && fs.Arg(0) == "worker" {
 		switch fs.Arg(1) {
